@@ -238,13 +238,14 @@ def r3_supermajority(chk):
             leaves_ = [lf for _, lf in symx.leaves(code_t)]
             tot = None
             for a_ in cond_atoms_of(code_t):
-                if COMP in a_ and a_.startswith("eq(") and ("sum(" in a_):
+                # (the entries are 0/1 by `same`, so counting the non-zero ones is summing them)
+                if COMP in a_ and a_.startswith("eq(") and ("sum(" in a_ or "count_nonzero(" in a_):
                     tot = a_
             want_t = None
             if tot is not None:
                 absent = symx.c_not(("atom", "in(contest_id,self.votes)"))
                 want_t = symx.I(absent, E(sp.Integer(0)), symx.I(("atom", tot), E(sp.Integer(1)), E(sp.Integer(0))))
-                same_r = symx.equivalent(code_t, symx.prune(want_t))[0] and tot.startswith("eq(1,") and tot.count("sum(") == 1
+                same_r = symx.equivalent(code_t, symx.prune(want_t))[0] and tot.startswith("eq(1,") and tot.count("sum(") + tot.count("count_nonzero(") == 1
         detail = dict(elt=norm(elt), iter=norm(it), term=repr(code_t)[:200])
         ok = same and norm(it) == "candidates" and not ifs and same_r
     # totality on ballots lacking the contest (the property quantifies over them): no unguarded self.votes[contest_id]
